@@ -238,6 +238,245 @@ def oracle_landscape(ctx, L, nocc, exc, params, amps):
     return e.real, float(w[0]), float(w[-1])
 
 
+# ------------------------------------------------------------------------------ histories (object lifetimes)
+# One VQE / PauliOperator / qUCC object used several times with its inputs replaced or CHANGED IN PLACE in between.
+# The harness keeps a shadow of the inputs (operator as a list of weighted strings, initial state, ansatz kind) and
+# recomputes every reported number with numpy from the shadow as it is at the time of the call.
+def conserving_strings(rng, L):
+    """a Hermitian, particle-number conserving Pauli operator on L qubits, as (z, x, q, [re, im]) strings"""
+    def e(*js):
+        return [1 if j in js else 0 for j in range(L)]
+
+    def w():
+        return [rng.randint(-12, 12) / 8 or 0.625, 0.0]
+    strings = [(e(j), e(), 0, w()) for j in range(L)]
+    for j in range(L - 1):
+        b = w()
+        strings.append((e(), e(j, j + 1), 0, b))                    # X X
+        strings.append((e(j, j + 1), e(j, j + 1), 0, list(b)))      # Y Y  (XX + YY conserves the number of set bits)
+        strings.append((e(j, j + 1), e(), 0, w()))                  # Z Z
+    return strings
+
+
+def occ_state(L, nocc):
+    state = np.array([1.0])
+    for j in range(L):
+        state = np.kron(state, np.array([0., 1.]) if j < nocc else np.array([1., 0.]))
+    return state
+
+
+def sector_state(L, nocc, amps):
+    idx = [i for i in range(2 ** L) if bin(i).count("1") == nocc]
+    v = np.zeros(2 ** L)
+    for i, a in zip(idx, amps):
+        v[i] = a
+    return v / np.linalg.norm(v)
+
+
+def wt(w):
+    """weight: a float when real (the operator matrix then has a real dtype, which scipy's COBYLA needs), else complex"""
+    return float(w[0]) if w[1] == 0 else complex(*w)
+
+
+def mk_pauli_op_w(strings):
+    from qib.operator.pauli_operator import PauliString, WeightedPauliString, PauliOperator
+    return PauliOperator([WeightedPauliString(PauliString(list(z), list(x), q), wt(w)) for z, x, q, w in strings])
+
+
+def apply_op_mutation(op, strings, m):
+    """the same change on the library object (in place) and on the shadow; returns the new shadow"""
+    from qib.operator.pauli_operator import PauliString, WeightedPauliString
+    if m[0] == "op_add":            # add_pauli_string (merges into an existing string or appends)
+        z, x, q, w = m[1], m[2], m[3], m[4]
+        op.add_pauli_string(WeightedPauliString(PauliString(list(z), list(x), q), wt(w)))
+        return strings + [(list(z), list(x), q, list(w))]
+    if m[0] == "op_scale":          # weights changed in place
+        for ps in op.pstrings:
+            ps.weight *= m[1]
+        return [("minus", s[1] * m[1]) if s[0] == "minus" else (s[0], s[1], s[2], [s[3][0] * m[1], s[3][1] * m[1]]) for s in strings]
+    if m[0] == "op_drop":           # a string removed in place
+        k = m[1] % len(op.pstrings)
+        if len(op.pstrings) > 1:
+            dead = op.pstrings.pop(k)
+            D = ref_pauli([(dead.paulis.z, dead.paulis.x, dead.paulis.q, [complex(dead.weight).real, complex(dead.weight).imag])],
+                          len(dead.paulis.z))
+            # the shadow does not know how the library merged strings: subtract the removed term
+            return strings + [("minus", D)]
+        return strings
+    raise ValueError(m)
+
+
+def shadow_matrix(strings, n):
+    M = ref_pauli([s for s in strings if s[0] != "minus"], n)
+    for s in strings:
+        if s[0] == "minus":
+            M = M - s[1]
+    return M
+
+
+def oracle_vqe_history(ctx, L, init, ops):
+    """init = {strings, nocc, exc, x0}; ops:
+       ["run"] | ["run_temp"] (operator passed as a temporary) | ["op_add", z, x, q, w] | ["op_scale", s] | ["op_drop", k] |
+       ["op_new", strings] | ["init", nocc] | ["init_inplace", nocc] | ["init_amps", [..]] | ["ansatz", exc, x0] | ["x0", [..]] |
+       ["secondary", strings]"""
+    import copy
+    import qib
+    field = mk_field(L)
+    strings = [tuple(s) for s in init["strings"]]
+    op = mk_pauli_op_w(strings)
+    sh = {"nocc": init["nocc"], "exc": init["exc"], "x0": list(init["x0"]), "state": occ_state(L, init["nocc"])}
+
+    def mk_opt(x0):
+        return qib.algorithms.vqe.Optimizer(x0=np.array(x0, dtype=float), method="COBYLA", tol=1e-3, options={"maxiter": len(x0) + 10})
+    solv = qib.algorithms.vqe.VQE(ansatz=qib.algorithms.vqe.ansatz.qUCC(field, excitations=sh["exc"], embedding="jordan_wigner"),
+                                  optimizer=mk_opt(sh["x0"]), initial_state=np.array(sh["state"]), measure_method="statevector")
+    nrun, last_change = 0, "construction"
+    results = []
+
+    def inp_of(k):
+        return {"kind": "vqe-history", "L": L, "init": init, "ops": [list(o) for o in ops[:k + 1]]}
+
+    for k, m in enumerate(ops):
+        if m[0] in ("run", "run_temp"):
+            if m[0] == "run":
+                res = solv.run(op)
+            else:
+                res = solv.run(copy.deepcopy(op))         # no reference kept: the next temporary may reuse its address
+            nrun += 1
+            tag = "run %s on one VQE instance (last change: %s)" % ("1" if nrun == 1 else ">=2", last_change)
+            P = shadow_matrix(strings, L)
+            psi = ref_qucc(L, sh["exc"], res.x) @ sh["state"]
+            e_ref = complex(np.vdot(psi, P @ psi))
+            e = complex(res.fun)
+            scale = max(1.0, abs(e_ref))
+            if abs(e - e_ref) > 1e-7 * scale:
+                ctx.fail("history:VQE: reported energy != psi^dagger P psi for the CURRENT operator, ansatz and initial state, " + tag,
+                         inp_of(k), repr(e_ref), repr(e))
+                break
+            emin = sector_min(P, L, sh["nocc"])
+            if e.real < emin - 1e-8 * scale:
+                ctx.fail("history:VQE: reported energy undercuts the lowest eigenvalue of the current operator in the sector, " + tag,
+                         inp_of(k), emin, e.real)
+                break
+            fresh = qib.algorithms.vqe.VQE(ansatz=qib.algorithms.vqe.ansatz.qUCC(field, excitations=sh["exc"], embedding="jordan_wigner"),
+                                           optimizer=mk_opt(sh["x0"]), initial_state=np.array(sh["state"]), measure_method="statevector")
+            rf = fresh.run(copy.deepcopy(op))
+            if abs(complex(rf.fun) - e) > 1e-7 * scale:
+                ctx.fail("history:VQE: a re-used instance reports another optimum than a fresh instance with the same inputs, " + tag,
+                         inp_of(k), repr(complex(rf.fun)), repr(e))
+                break
+            results.append((res, e, np.array(res.x, copy=True)))
+            # results handed out earlier are unaffected
+            for r0, e0, x0_ in results[:-1]:
+                if complex(r0.fun) != e0 or not np.array_equal(np.asarray(r0.x), x0_):
+                    ctx.fail("history:VQE: a result handed out by an earlier run was changed by a later run", inp_of(k))
+                    break
+        elif m[0] == "secondary":
+            sec = [tuple(s) for s in m[1]]
+            vals = solv.expectation_secondary_ops([mk_pauli_op_w(sec)])
+            if nrun == 0:
+                if vals is not None:
+                    ctx.fail("history:VQE: expectation_secondary_ops before any run returns values", inp_of(k), None, repr(vals))
+                    break
+            else:
+                psi = ref_qucc(L, sh["exc"], results[-1][2]) @ sh["state"]
+                e_ref = complex(np.vdot(psi, ref_pauli(sec, L) @ psi))
+                if vals is None or abs(complex(vals[0]) - e_ref) > 1e-7 * max(1.0, abs(e_ref)):
+                    ctx.fail("history:VQE: expectation_secondary_ops != psi^dagger P psi at the optimal parameters of the last run "
+                             "(last change: %s)" % last_change, inp_of(k), repr(e_ref), repr(vals))
+                    break
+            continue
+        elif m[0] in ("op_add", "op_scale", "op_drop"):
+            strings = apply_op_mutation(op, strings, m)
+        elif m[0] == "op_new":
+            strings = [tuple(s) for s in m[1]]
+            op = mk_pauli_op_w(strings)
+        elif m[0] == "init":
+            sh["nocc"], sh["state"] = m[1], occ_state(L, m[1])
+            solv.initial_state = np.array(sh["state"])
+        elif m[0] == "init_inplace":
+            sh["nocc"], sh["state"] = m[1], occ_state(L, m[1])
+            solv.initial_state[:] = sh["state"]
+        elif m[0] == "init_amps":
+            sh["state"] = sector_state(L, sh["nocc"], m[1])
+            solv.initial_state = np.array(sh["state"])
+        elif m[0] == "ansatz":
+            sh["exc"], sh["x0"] = m[1], list(m[2])
+            solv.ansatz = qib.algorithms.vqe.ansatz.qUCC(field, excitations=m[1], embedding="jordan_wigner")
+            solv.optimizer.x0 = np.array(m[2], dtype=float)
+        elif m[0] == "x0":
+            sh["x0"] = list(m[1])
+            solv.optimizer.x0 = np.array(m[1], dtype=float)
+        else:
+            raise ValueError(m)
+        if m[0] not in ("run", "run_temp"):
+            last_change = {"op_add": "add_pauli_string on the same operator object", "op_scale": "weights of the same operator object changed",
+                           "op_drop": "a string removed from the same operator object", "op_new": "another operator object",
+                           "init": "initial_state replaced", "init_inplace": "initial_state changed in place",
+                           "init_amps": "initial_state replaced", "ansatz": "ansatz replaced", "x0": "optimizer.x0 replaced"}[m[0]]
+    return nrun
+
+
+def oracle_value_history(ctx, n, init_strings, state, ops):
+    """measure_expectation_statevector / PauliOperator.as_matrix called repeatedly on ONE operator object and ONE state array
+    that are changed in place in between.  ops: ["measure"] | ["matrix"] | ["op_add", ..] | ["op_scale", s] | ["op_drop", k] |
+    ["state_inplace", [[re, im], ..]].  Values and matrices handed out earlier must stay what they were."""
+    from qib.algorithms.vqe.vqe import measure_expectation_statevector
+    strings = [tuple(s) for s in init_strings]
+    op = mk_pauli_op(strings)
+    psi = cstate(state)
+    held = []
+    last_change = "construction"
+
+    def inp_of(k):
+        return {"kind": "value-history", "n": n, "strings": init_strings, "state": state, "ops": [list(o) for o in ops[:k + 1]]}
+    for k, m in enumerate(ops):
+        if m[0] == "measure":
+            val = complex(measure_expectation_statevector(op, psi))
+            ref = complex(np.vdot(psi, shadow_matrix(strings, n) @ psi))
+            if abs(val - ref) > TOL * max(1.0, abs(ref)):
+                ctx.fail("history:expectation != psi^dagger P psi for the CURRENT operator and state (last change: %s)" % last_change,
+                         inp_of(k), repr(ref), repr(val))
+                return
+        elif m[0] == "matrix":
+            M = op.as_matrix()
+            held.append((M, shadow_matrix(strings, n), k))
+        elif m[0] == "state_inplace":
+            psi[:] = cstate(m[1])
+            last_change = "state changed in place"
+        else:
+            strings = apply_op_mutation(op, strings, m)
+            last_change = {"op_add": "add_pauli_string on the same operator object", "op_scale": "weights of the same operator object changed",
+                           "op_drop": "a string removed from the same operator object"}[m[0]]
+        for M, R, k0 in held:
+            A = M.toarray() if hasattr(M, "toarray") else np.asarray(M)
+            if A.shape != R.shape or np.abs(A - R).max() > 1e-12:
+                ctx.fail("history:operator matrix %s" % ("!= the current operator (last change: %s)" % last_change if k0 == k else
+                                                          "handed out earlier was changed by a later call"),
+                         dict(inp_of(k), obtained_at_step=k0))
+                return
+
+
+def oracle_qucc_history(ctx, L, exc, plist):
+    """one qUCC object asked for several parameter vectors; the SAME parameter array is overwritten in place between calls;
+    every matrix handed out must equal the reference for the parameters of ITS call, also after the later calls"""
+    import qib
+    ans = qib.algorithms.vqe.ansatz.qUCC(mk_field(L), excitations=exc, embedding="jordan_wigner")
+    inp = {"kind": "qucc-history", "L": L, "exc": exc, "plist": [[float(p) for p in ps] for ps in plist]}
+    buf = np.array(plist[0], dtype=float)
+    held = []
+    for k, ps in enumerate(plist):
+        buf[:] = ps
+        held.append((ans.as_matrix(buf), ref_qucc(L, exc, ps), k))
+        for U, R, k0 in held:
+            dev = np.abs(U.toarray() - R).max()
+            if dev > 1e-8:
+                ctx.fail("history:qUCC(%s): %s" % (exc, "matrix != prod exp(T - T^dagger) for the parameters of this call (same array object as before)"
+                                                   if k0 == k else "matrix handed out earlier was changed by a later call"),
+                         dict(inp, plist=inp["plist"][:k + 1], obtained_at_call=k0), None, "%.3g" % dev)
+                return
+
+
 # ------------------------------------------------------------------------------ run
 def qi_list(v):
     return ct.lst([ct.qi(complex(c)) for c in v])
@@ -450,6 +689,139 @@ def run(ctx):
                         ctx.sample(dict(desc, energy=e, sector_range=[lo, hi]))
                     nland += 1
 
+    ctx.log("start histories")
+    # ---------------------------------------------------------------- several uses of one object, inputs changed in between
+    ctx.rules.append("histories: one VQE instance run 2-4 times with the operator changed IN PLACE (add_pauli_string incl. a constant "
+                     "offset, weights rescaled, a string removed), replaced, passed as a temporary, the initial state replaced / "
+                     "overwritten in place, the ansatz and x0 replaced; every reported optimum compared with psi^dagger P psi from a "
+                     "numpy reference of the CURRENT inputs, with the sector minimum, and with a fresh instance; the same for "
+                     "measure_expectation_statevector / PauliOperator.as_matrix on one operator object and one state array, and for "
+                     "qUCC.as_matrix on one parameter array overwritten in place")
+    nparam = {"s": lambda L: L ** 2, "d": lambda L: L ** 4, "sd": lambda L: L ** 2 + L ** 4}
+
+    def rx0(exc, L):
+        return [round(rng.uniform(0, 1), 6) for _ in range(nparam[exc](L))]
+
+    def ident(L, c):
+        return ["op_add", L * [0], L * [0], 0, [c, 0.0]]
+    vh = []
+    L = 2
+    muts = [[ident(L, 3.0)], [["op_scale", -1.5]], [["op_add", [1, 1], [0, 0], 0, [0.75, 0.0]]], [["op_drop", 0]],
+            [["op_new", None]], [["init", 2]], [["init_inplace", 0]], [["init_amps", [0.6, -0.8]]], [["ansatz", "d", None]],
+            [["x0", None]]]
+    for mut in muts:
+        mut = [list(m) for m in mut]
+        for m in mut:
+            if m[0] == "op_new":
+                m[1] = conserving_strings(rng, L)
+            if m[0] == "ansatz":
+                m[2] = rx0(m[1], L)
+            if m[0] == "x0":
+                m[1] = rx0("s", L)
+        init = {"strings": conserving_strings(rng, L), "nocc": 1, "exc": "s", "x0": rx0("s", L)}
+        vh.append((L, init, [["run"], ["secondary", conserving_strings(rng, L)]] + mut + [["run"], ["secondary", conserving_strings(rng, L)]]))
+    # temporaries (an address can be reused by the next operator object)
+    for _ in range(2):
+        init = {"strings": conserving_strings(rng, L), "nocc": 1, "exc": "s", "x0": rx0("s", L)}
+        vh.append((L, init, [["run_temp"], ["op_new", conserving_strings(rng, L)], ["run_temp"], ident(L, -2.5), ["run_temp"]]))
+    for _ in range(12 if ctx.thorough else 3):
+        L = rng.choice([2, 2, 3]) if ctx.thorough else 2
+        exc = rng.choice(["s", "s", "sd"]) if L == 2 else "s"
+        nocc = rng.randint(1, L - 1) if L > 2 else 1
+        init = {"strings": conserving_strings(rng, L), "nocc": nocc, "exc": exc, "x0": rx0(exc, L)}
+        ops = [[rng.choice(["run", "run_temp"])]]
+        for _k in range(rng.randint(2, 3)):
+            r = rng.random()
+            if r < 0.3:
+                ops.append(ident(L, rng.randint(-20, 20) / 4 or 1.0))
+            elif r < 0.45:
+                ops.append(["op_scale", rng.choice([-2.0, 0.5, 3.0])])
+            elif r < 0.6:
+                z = [rng.randint(0, 1) for _ in range(L)]
+                ops.append(["op_add", z, L * [0], 0, [rng.randint(-8, 8) / 4 or 0.5, 0.0]])
+            elif r < 0.7:
+                ops.append(["op_new", conserving_strings(rng, L)])
+            elif r < 0.8:
+                nocc = rng.randint(0, L)
+                ops.append([rng.choice(["init", "init_inplace"]), nocc])
+            elif r < 0.9:
+                ops.append(["x0", rx0(exc, L)])
+            else:
+                ops.append(["op_drop", rng.randint(0, 5)])
+            ops.append([rng.choice(["run", "run", "run_temp"])])
+        vh.append((L, init, ops))
+    for L, init, ops in vh:
+        ctx.count("history_vqe")
+        for m in ops:
+            if m[0] not in ("run", "run_temp", "secondary"):
+                ctx.count("history_vqe_with_" + m[0])
+        try:
+            nrun = oracle_vqe_history(ctx, L, init, ops)
+        except Exception as e:
+            ctx.fail("history:VQE:exception:" + type(e).__name__, {"kind": "vqe-history", "L": L, "init": init, "ops": ops},
+                     "every call of the history succeeds", repr(e))
+            continue
+        ctx.count("history_vqe_runs", nrun)
+        ctx.evaluations += 1
+        desc = {"kind": "vqe-history", "L": L, "exc": init["exc"], "ops": [m[0] for m in ops], "x0_first": init["x0"][0]}
+        ctx.nontriv(desc)
+        if ("vqe-history",) not in sampled and len(ops) >= 5:
+            sampled.add(("vqe-history",))
+            ctx.sample(dict(desc, ops=[m if m[0] not in ("op_new", "secondary") else [m[0], "<strings>"] for m in ops]), cap=8)
+    # values and matrices of one operator object / one state array
+    for rep in range(200 if ctx.thorough else 40):
+        n = rng.randint(1, nmax)
+        strings = []
+        seen = set()
+        for _k in range(rng.randint(1, 4)):
+            z = [rng.randint(0, 1) for _ in range(n)]
+            x = [rng.randint(0, 1) for _ in range(n)]
+            if (tuple(z), tuple(x)) not in seen:
+                seen.add((tuple(z), tuple(x)))
+                strings.append((z, x, rng.randint(0, 3), [dy(), dy()]))
+        state = [[dy(), dy()] for _ in range(2 ** n)]
+        ops = [["measure"], ["matrix"]]
+        for _k in range(rng.randint(1, 4)):
+            r = rng.random()
+            if r < 0.35:
+                s = rng.choice(strings)
+                new = rng.random() < 0.5
+                z = [rng.randint(0, 1) for _ in range(n)] if new else s[0]
+                x = [rng.randint(0, 1) for _ in range(n)] if new else s[1]
+                ops.append(["op_add", z, x, rng.randint(0, 3) if new else s[2], [dy() or 1.0, dy()]])
+            elif r < 0.55:
+                ops.append(["op_scale", rng.choice([-1.0, 0.5, 2.0])])
+            elif r < 0.7:
+                ops.append(["op_drop", rng.randint(0, 3)])
+            else:
+                ops.append(["state_inplace", [[dy(), dy()] for _ in range(2 ** n)]])
+            ops.append(["measure"])
+            if rng.random() < 0.5:
+                ops.append(["matrix"])
+        ctx.count("history_value")
+        try:
+            oracle_value_history(ctx, n, strings, state, ops)
+        except Exception as e:
+            ctx.fail("history:expectation:exception:" + type(e).__name__,
+                     {"kind": "value-history", "n": n, "strings": strings, "state": state, "ops": ops}, None, repr(e))
+            continue
+        ctx.evaluations += 1
+        ctx.nontriv({"kind": "value-history", "n": n, "rep": rep, "ops": [m[0] for m in ops]})
+    for exc in ("s", "d", "sd"):
+        for L in (2, 3) if exc == "s" or ctx.thorough else (2,):
+            for rep in range(3 if ctx.thorough else 1):
+                cnt = nparam[exc](L)
+                plist = [[rng.uniform(-1.5, 1.5) for _ in range(cnt)] for _ in range(3)]
+                ctx.count("history_qucc_%s" % exc)
+                try:
+                    oracle_qucc_history(ctx, L, exc, plist)
+                except Exception as e:
+                    ctx.fail("history:qUCC(%s):exception:%s" % (exc, type(e).__name__), {"kind": "qucc-history", "L": L, "exc": exc, "plist": plist},
+                             None, repr(e))
+                    continue
+                ctx.evaluations += 1
+                ctx.nontriv({"kind": "qucc-history", "L": L, "exc": exc, "rep": rep, "first": plist[0][0]})
+
     ctx.log("start coq cases")
     if ok_tr:
         dis = ctx.cases("vqe", HEADER, cases, fn="bad_cases gen_expect")
@@ -472,6 +844,12 @@ def replay(ctx, data):
         oracle_vqe(ctx, inp["L"], inp["nocc"], inp["x0"], inp.get("exc", "s"), phase=inp.get("phase", 0.0))
     elif k == "landscape":
         oracle_landscape(ctx, inp["L"], inp["nocc"], inp["exc"], inp["params"], inp["amps"])
+    elif k == "vqe-history":
+        oracle_vqe_history(ctx, inp["L"], inp["init"], inp["ops"])
+    elif k == "value-history":
+        oracle_value_history(ctx, inp["n"], inp["strings"], inp["state"], inp["ops"])
+    elif k == "qucc-history":
+        oracle_qucc_history(ctx, inp["L"], inp["exc"], inp["plist"])
     elif k == "cluster":
         T = lib_cluster(inp["L"], inp["kinds"], inp["params"])
         if np.abs(T - ref_cluster(inp["L"], inp["kinds"], inp["params"])).max() > 1e-12:
